@@ -143,6 +143,15 @@ class Fold:
     def default_of(self, key, env):
         """value a field has on a path that did not store to it: its atom (None for keys that are not fields stored through a member expression)"""
         n = getattr(self, "field_nodes", {}).get(key) if isinstance(key, tuple) else None
+        if n is None and isinstance(key, int):
+            # a parameter assigned on one branch only (e.g. std::swap(a, b) under an if) keeps its incoming value on the other
+            fn_ = self.f
+            pr = [p_ for p_ in fn_.j.get("params", []) if p_.get("decl") == key]
+            if pr and key not in getattr(self, "transparent", ()):
+                n = {"k": "ref", "dk": "param", "decl": key, "name": pr[0]["name"], "type": pr[0].get("type") or "", "id": -1}
+                if self.opaque_types and re.search(self.opaque_types, n["type"]):
+                    return S(n["name"])
+                return self.atom_for(n, env)
         if n is None:
             return None
         if self.opaque_types and re.search(self.opaque_types, n.get("type") or ""):
@@ -720,6 +729,12 @@ class Fold:
                 return F(short)(a[0])
             if short in ("min", "max") and len(a) == 2:
                 return F(short)(a[0], a[1])
+            if short == "swap" and len(a) == 2 and n["k"] == "call":
+                l0, l1 = unwrap(n["args"][0]), unwrap(n["args"][1])
+                if all(x.get("k") == "ref" and x.get("dk") in ("local", "param") for x in (l0, l1)):
+                    v0, v1 = env.get(l0["decl"], a[0]), env.get(l1["decl"], a[1])
+                    env[l0["decl"]], env[l1["decl"]] = v1, v0
+                    return S("void")
             if short in ("all_of", "any_of", "none_of") and len(a) == 3 and n["k"] == "call":
                 its = [unwrap(x) for x in n["args"][:2]]
                 ends = [(x.get("callee") or "").split("::")[-1] if x.get("k") in ("mcall", "call") else None for x in its]
